@@ -10,6 +10,7 @@ import (
 	"strconv"
 	"strings"
 	"sync"
+	"sync/atomic"
 	"time"
 
 	"golang.org/x/tools/go/ssa"
@@ -111,12 +112,39 @@ func newExec(P *Program, solverKind string, timeoutMs int) (*Exec, error) {
 		pathsByEnd: map[string]int{}, params: map[string]int{}, blockSites: map[string]int{}, accessAll: map[string]*AccessSummary{}}, nil
 }
 
-func (ex *Exec) runJob(init *State, job Job, verbose int) *JobResult {
-	t0 := time.Now()
+// ---- work sharing between workers (load balance inside one job)
+
+type stolen struct {
+	job int
+	st  *State
+}
+
+type Pool struct {
+	mu      sync.Mutex
+	jobs    []Job
+	next    int
+	shared  []stolen
+	idle    int32
+	busy    int
+	results []*JobResult
+	start   []time.Time
+}
+
+func (p *Pool) wantWork() bool { return atomic.LoadInt32(&p.idle) > 0 }
+
+func (p *Pool) donate(job int, states []*State) {
+	p.mu.Lock()
+	for _, s := range states {
+		p.shared = append(p.shared, stolen{job, s})
+	}
+	p.mu.Unlock()
+}
+
+func (ex *Exec) resetStats(job Job, verbose int) {
 	spec := job.Spec
 	ex.cfg = &RunCfg{MaxPaths: spec.MaxPaths, MaxSeconds: spec.MaxSecs, Unwind: spec.Unwind, Verbose: verbose, SampleN: 6}
 	if ex.cfg.MaxPaths == 0 {
-		ex.cfg.MaxPaths = 200000
+		ex.cfg.MaxPaths = 400000
 	}
 	if ex.cfg.MaxSeconds == 0 {
 		ex.cfg.MaxSeconds = 600
@@ -134,32 +162,85 @@ func (ex *Exec) runJob(init *State, job Job, verbose int) *JobResult {
 	ex.params = job.Params
 	ex.curHarness = spec.Name
 	ex.solver.stats = SolverStats{}
-	ex.deadline = time.Now().Add(time.Duration(ex.cfg.MaxSeconds * float64(time.Second)))
+}
 
-	res := &JobResult{Label: job.Label, Harness: spec.Name, Params: job.Params}
-	pkg := ex.P.pkgs[pkgPathOf(spec.Pkg)]
-	var fn *ssa.Function
-	if pkg != nil {
-		fn = pkg.Func(spec.Name)
+func (ex *Exec) collect(job Job, t0 time.Time) *JobResult {
+	res := &JobResult{Label: job.Label, Harness: job.Spec.Name, Params: job.Params}
+	res.Paths, res.PathsByEnd, res.Branches, res.Forks, res.Instrs = ex.paths, ex.pathsByEnd, ex.branches, ex.forks, ex.instrs
+	res.Solver = ex.solver.stats
+	res.Asserts, res.Violations, res.Incon, res.Samples = ex.asserts, ex.violations, ex.incon, ex.samples
+	res.Functions = ex.fnEntered
+	res.ModelHits = ex.modelHits
+	res.BlockSites = ex.blockSites
+	res.Access = ex.accessAll
+	res.PassModels = ex.passModels
+	res.Seconds = time.Since(t0).Seconds()
+	return res
+}
+
+func mergeResult(dst, src *JobResult) *JobResult {
+	if dst == nil {
+		return src
 	}
-	if fn == nil {
-		res.Incon = []string{"harness function not found: " + spec.Pkg + "." + spec.Name}
-		return res
+	dst.Paths += src.Paths
+	dst.Branches += src.Branches
+	dst.Forks += src.Forks
+	dst.Instrs += src.Instrs
+	dst.ModelHits += src.ModelHits
+	dst.Seconds += src.Seconds
+	for k, v := range src.PathsByEnd {
+		dst.PathsByEnd[k] += v
 	}
-	st := &State{id: newStateID(), heap: init.heap.fork(), symCount: map[string]int{}, sideVals: init.sideVals}
-	st.threads = []*Thread{{name: "main"}}
-	st.cur = 0
-	st.model, st.modelOK = Model{}, true
-	st.env = map[string]*StrV{"TERM": mkStr("xterm")}
-	ex.work = []*State{st}
-	func() {
-		defer func() {
-			if r := recover(); r != nil {
-				ex.inconclusive(fmt.Sprintf("engine panic while starting harness: %v", r))
-			}
-		}()
-		ex.pushCall(st, fn, nil, nil, nil)
-	}()
+	for k, v := range src.Functions {
+		dst.Functions[k] += v
+	}
+	for k, v := range src.BlockSites {
+		dst.BlockSites[k] += v
+	}
+	for k, a := range src.Asserts {
+		t := dst.Asserts[k]
+		if t == nil {
+			dst.Asserts[k] = a
+			continue
+		}
+		t.Reached += a.Reached
+		t.Proved += a.Proved
+		t.Trivial += a.Trivial
+		t.Failed += a.Failed
+	}
+	for k, a := range src.Access {
+		t := dst.Access[k]
+		if t == nil {
+			dst.Access[k] = a
+			continue
+		}
+		mergeAccessSummary(t, a)
+	}
+	ds, ss := &dst.Solver, src.Solver
+	ds.Queries += ss.Queries
+	ds.Sat += ss.Sat
+	ds.Unsat += ss.Unsat
+	ds.Unknown += ss.Unknown
+	ds.Errors += ss.Errors
+	ds.Seconds += ss.Seconds
+	ds.DefsSent += ss.DefsSent
+	if ss.MaxQueryS > ds.MaxQueryS {
+		ds.MaxQueryS = ss.MaxQueryS
+	}
+	dst.Violations = append(dst.Violations, src.Violations...)
+	dst.Incon = append(dst.Incon, src.Incon...)
+	if len(dst.Samples) < 12 {
+		dst.Samples = append(dst.Samples, src.Samples...)
+	}
+	if len(dst.PassModels) < 24 {
+		dst.PassModels = append(dst.PassModels, src.PassModels...)
+	}
+	return dst
+}
+
+// explore runs the worklist to exhaustion (donating to idle workers).
+func (ex *Exec) explore(pool *Pool, jobIdx int, spec *HarnessSpec, started time.Time) {
+	ex.deadline = started.Add(time.Duration(ex.cfg.MaxSeconds * float64(time.Second)))
 	for len(ex.work) > 0 {
 		s := ex.work[len(ex.work)-1]
 		ex.work = ex.work[:len(ex.work)-1]
@@ -175,17 +256,46 @@ func (ex *Exec) runJob(init *State, job Job, verbose int) *JobResult {
 			ex.work = nil
 			break
 		}
+		if pool != nil && len(ex.work) > 1 && pool.wantWork() {
+			n := len(ex.work) / 2
+			pool.donate(jobIdx, ex.work[:n]) // the oldest states root the largest subtrees
+			ex.work = append([]*State(nil), ex.work[n:]...)
+		}
 	}
-	res.Paths, res.PathsByEnd, res.Branches, res.Forks, res.Instrs = ex.paths, ex.pathsByEnd, ex.branches, ex.forks, ex.instrs
-	res.Solver = ex.solver.stats
-	res.Asserts, res.Violations, res.Incon, res.Samples = ex.asserts, ex.violations, ex.incon, ex.samples
-	res.Functions = ex.fnEntered
-	res.ModelHits = ex.modelHits
-	res.BlockSites = ex.blockSites
-	res.Access = ex.accessAll
-	res.PassModels = ex.passModels
-	res.Seconds = time.Since(t0).Seconds()
-	return res
+}
+
+func (ex *Exec) runJob(init *State, job Job, verbose int) *JobResult {
+	return ex.runJobPool(nil, 0, init, job, verbose)
+}
+
+func (ex *Exec) runJobPool(pool *Pool, jobIdx int, init *State, job Job, verbose int) *JobResult {
+	t0 := time.Now()
+	spec := job.Spec
+	ex.resetStats(job, verbose)
+	pkg := ex.P.pkgs[pkgPathOf(spec.Pkg)]
+	var fn *ssa.Function
+	if pkg != nil {
+		fn = pkg.Func(spec.Name)
+	}
+	if fn == nil {
+		return &JobResult{Label: job.Label, Harness: spec.Name, Params: job.Params, Incon: []string{"harness function not found: " + spec.Pkg + "." + spec.Name}}
+	}
+	st := &State{id: newStateID(), heap: init.heap.fork(), symCount: map[string]int{}, sideVals: init.sideVals}
+	st.threads = []*Thread{{name: "main"}}
+	st.cur = 0
+	st.model, st.modelOK = Model{}, true
+	st.env = map[string]*StrV{"TERM": mkStr("xterm")}
+	ex.work = []*State{st}
+	func() {
+		defer func() {
+			if r := recover(); r != nil {
+				ex.inconclusive(fmt.Sprintf("engine panic while starting harness: %v", r))
+			}
+		}()
+		ex.pushCall(st, fn, nil, nil, nil)
+	}()
+	ex.explore(pool, jobIdx, spec, t0)
+	return ex.collect(job, t0)
 }
 
 func (ex *Exec) finishPath(st *State, spec *HarnessSpec) {
@@ -397,12 +507,10 @@ func cmdCheck(args []string) int {
 }
 
 func runWorkers(P *Program, init *State, jobs []Job, verbose int, nworkers int) []*JobResult {
-	results := make([]*JobResult, len(jobs))
-	var mu sync.Mutex
-	next := 0
+	pool := &Pool{jobs: jobs, results: make([]*JobResult, len(jobs)), start: make([]time.Time, len(jobs))}
 	var wg sync.WaitGroup
-	if nworkers > len(jobs) {
-		nworkers = len(jobs)
+	if nworkers < 1 {
+		nworkers = 1
 	}
 	for w := 0; w < nworkers; w++ {
 		wg.Add(1)
@@ -414,37 +522,95 @@ func runWorkers(P *Program, init *State, jobs []Job, verbose int, nworkers int) 
 					e.solver.Close()
 				}
 			}()
-			for {
-				mu.Lock()
-				i := next
-				next++
-				mu.Unlock()
-				if i >= len(jobs) {
-					return
-				}
-				kind := jobs[i].Spec.Solver
+			getExec := func(spec *HarnessSpec) (*Exec, error) {
+				kind := spec.Solver
 				if kind == "" {
 					kind = "z3-new"
 				}
-				ex := execs[kind]
-				if ex == nil {
-					var err error
-					ex, err = newExec(P, kind, 30000)
-					if err != nil {
-						results[i] = &JobResult{Label: jobs[i].Label, Harness: jobs[i].Spec.Name, Incon: []string{"cannot start solver: " + err.Error()}}
-						continue
-					}
+				if ex := execs[kind]; ex != nil {
+					return ex, nil
+				}
+				ex, err := newExec(P, kind, 30000)
+				if err == nil {
 					execs[kind] = ex
 				}
-				results[i] = ex.runJob(init, jobs[i], verbose)
-				if verbose > 0 {
-					mu.Lock()
-					printResult(results[i])
-					mu.Unlock()
+				return ex, err
+			}
+			idleMarked := false
+			for {
+				pool.mu.Lock()
+				var i = -1
+				var sw *stolen
+				if pool.next < len(pool.jobs) {
+					i = pool.next
+					pool.next++
+					pool.start[i] = time.Now()
+					pool.busy++
+				} else if n := len(pool.shared); n > 0 {
+					x := pool.shared[n-1]
+					pool.shared = pool.shared[:n-1]
+					sw = &x
+					pool.busy++
 				}
+				done := i < 0 && sw == nil && pool.busy == 0
+				pool.mu.Unlock()
+				if i < 0 && sw == nil {
+					if done {
+						if idleMarked {
+							atomic.AddInt32(&pool.idle, -1)
+						}
+						return
+					}
+					if !idleMarked {
+						atomic.AddInt32(&pool.idle, 1)
+						idleMarked = true
+					}
+					time.Sleep(5 * time.Millisecond)
+					continue
+				}
+				if idleMarked {
+					atomic.AddInt32(&pool.idle, -1)
+					idleMarked = false
+				}
+				var res *JobResult
+				ji := i
+				if i >= 0 {
+					ex, err := getExec(jobs[i].Spec)
+					if err != nil {
+						res = &JobResult{Label: jobs[i].Label, Harness: jobs[i].Spec.Name, PathsByEnd: map[string]int{}, Incon: []string{"cannot start solver: " + err.Error()}}
+					} else {
+						res = ex.runJobPool(pool, i, init, jobs[i], verbose)
+					}
+				} else {
+					ji = sw.job
+					ex, err := getExec(jobs[ji].Spec)
+					if err != nil {
+						res = &JobResult{Label: jobs[ji].Label, Harness: jobs[ji].Spec.Name, PathsByEnd: map[string]int{}, Incon: []string{"cannot start solver: " + err.Error()}}
+					} else {
+						t0 := time.Now()
+						ex.resetStats(jobs[ji], verbose)
+						ex.work = []*State{sw.st}
+						pool.mu.Lock()
+						started := pool.start[ji]
+						pool.mu.Unlock()
+						ex.explore(pool, ji, jobs[ji].Spec, started)
+						res = ex.collect(jobs[ji], t0)
+					}
+				}
+				pool.mu.Lock()
+				pool.results[ji] = mergeResult(pool.results[ji], res)
+				pool.busy--
+				pool.mu.Unlock()
 			}
 		}()
 	}
 	wg.Wait()
-	return results
+	if verbose > 0 {
+		for _, r := range pool.results {
+			if r != nil {
+				printResult(r)
+			}
+		}
+	}
+	return pool.results
 }
